@@ -168,12 +168,29 @@ func c09MsgString(m *dnsmessage.Msg) string {
 // where is a coarse structural label (layer/path) that goes into the signature.
 // Returns true when the message is consistent with the request.
 func c09JudgeMsg(m *vk.Monitor, where string, id uint16, q c09Q, r *dnsmessage.Msg, judgeID bool, witness func() any) bool {
+	return c09JudgeMsgQ(m, where, id, q, r, judgeID, false, witness)
+}
+
+// c09JudgeClientMsg is c09JudgeMsg for a message dae WROTE TO A CLIENT: the
+// statement says such a reply carries the client's question, so the question
+// section must be there, exactly once (QDCOUNT == 1). Messages taken below the
+// client edge (what a forwarder handed to the controller) keep the lenient form.
+func c09JudgeClientMsg(m *vk.Monitor, where string, id uint16, q c09Q, r *dnsmessage.Msg, witness func() any) bool {
+	return c09JudgeMsgQ(m, where, id, q, r, true, true, witness)
+}
+
+func c09JudgeMsgQ(m *vk.Monitor, where string, id uint16, q c09Q, r *dnsmessage.Msg, judgeID, needQuestion bool, witness func() any) bool {
 	ok := true
 	m.Count("msgs_judged", 1)
 	if judgeID && r.Id != id {
 		ok = false
 		c09V(m, "reply-id-mismatch/"+where,
 			fmt.Sprintf("message for request id=%d (%s) carries id=%d", id, q, r.Id), witness())
+	}
+	if needQuestion && len(r.Question) != 1 {
+		ok = false
+		c09V(m, "reply-question-count/"+where,
+			fmt.Sprintf("reply to request (%s) carries %d questions, the client sent exactly one", q, len(r.Question)), witness())
 	}
 	if len(r.Question) == 0 {
 		m.Count("msgs_without_question_section", 1)
@@ -311,6 +328,27 @@ type c09World struct {
 	shutdown atomic.Bool // set when the driver starts tearing the controller down
 	fwdMu    sync.Mutex
 	fwds     []*c09FakeFwd
+	// ttl: TTL of the records of a well-formed positive answer per canonical
+	// name (default 60); read by the fake forwarders only.
+	ttl map[string]uint32
+}
+
+func (w *c09World) setTTL(name string, ttl uint32) {
+	w.mu.Lock()
+	if w.ttl == nil {
+		w.ttl = map[string]uint32{}
+	}
+	w.ttl[strings.ToLower(name)] = ttl
+	w.mu.Unlock()
+}
+
+func (w *c09World) okTTL(q c09Q) uint32 {
+	w.mu.Lock()
+	defer w.mu.Unlock()
+	if t, ok := w.ttl[q.canon()]; ok {
+		return t
+	}
+	return 60
 }
 
 func c09NewWorld(r *rand.Rand, pool []c09Q) *c09World {
@@ -520,7 +558,7 @@ func (f *c09FakeFwd) ForwardDNS(ctx context.Context, data []byte) (*dnsmessage.M
 		if err := pause(time.Duration(1+call.Seq%4) * time.Millisecond); err != nil {
 			return nil, err
 		}
-		return c09Response(req.Id, q, call.Gen, 60), nil
+		return c09Response(req.Id, q, call.Gen, f.w.okTTL(q)), nil
 	case c09TTL0:
 		return c09Response(req.Id, q, call.Gen, 0), nil
 	case c09SlowTTL0, c09SlowNX:
@@ -584,7 +622,7 @@ func (f *c09FakeFwd) ForwardDNS(ctx context.Context, data []byte) (*dnsmessage.M
 		m.Answer = nil
 		return m, nil
 	default:
-		return c09Response(req.Id, q, call.Gen, 60), nil
+		return c09Response(req.Id, q, call.Gen, f.w.okTTL(q)), nil
 	}
 }
 
